@@ -176,3 +176,11 @@ Theorem C14_halflife_rows_examined : length (filter is_data_row ActivationDat.ac
 Proof. exact halflife_rows_examined. Qed.
 Print Assumptions C14_halflife_rows_examined.
 
+(* ---------------- the parent half-life of every two-step / decay-fed row (92 rows) is the half-life, in hours, of the
+   product of the primary row of the same element just above it *)
+Theorem C14_parent_halflives_agree :
+  parent_halflives_ok ActivationDat.activation_dat None = true /\
+  length (filter is_chain_row ActivationDat.activation_dat) = 92%nat.
+Proof. exact (conj sweep_parent_halflives chain_rows_examined). Qed.
+Print Assumptions C14_parent_halflives_agree.
+
